@@ -1,7 +1,8 @@
 # Environment-perturbation shim, loaded by the interpreter that runs tools/tzcompiler.py when
 # DETCOMPILE_SEED is set (PYTHONPATH points here). It takes every uncontrolled input the compiler
 # can see away from the real environment and drives it from the seed instead:
-#   wall clock      time.time / time.time_ns / datetime.now / utcnow / today jump arbitrarily
+#   wall clock      time.time / time.time_ns / datetime.now / utcnow / today jump arbitrarily (also backwards);
+#                   time.monotonic / perf_counter keep running forward from a seed-drawn origin
 #   listing order   os.listdir / os.scandir results are shuffled
 #   randomness      random is reseeded
 #   pid             os.getpid returns a seed-derived number
@@ -27,8 +28,12 @@ if _seed is not None:
 
     _time.time = _now
     _time.time_ns = lambda: int(_now() * 1e9)
-    _time.monotonic = _now
-    _time.perf_counter = _now
+    # the monotonic clocks stay monotonic and real-paced (code that waits on them - a process pool, a lock with a
+    # time-out - must keep working); only their origin is seed-drawn. The wall clock is what jumps.
+    _mono0 = _rng.uniform(0, 1e6)
+    _real_monotonic, _real_perf = _time.monotonic, _time.perf_counter
+    _time.monotonic = lambda: _mono0 + _real_monotonic()
+    _time.perf_counter = lambda: _mono0 + _real_perf()
 
     class _FakeDateTime(_dt.datetime):
         @classmethod
@@ -78,8 +83,11 @@ if _seed is not None:
 
     os.listdir = _listdir
     os.scandir = lambda path='.': _Scan(path)
+    # a seed-drawn pid that still tells a forked child from its parent (multiprocessing depends on that)
     _pid = _rng.randint(2, 4000000)
-    os.getpid = lambda: _pid
+    _real_getpid = os.getpid
+    _pid_at_load = _real_getpid()
+    os.getpid = lambda: _pid + (_real_getpid() - _pid_at_load)
     # who / where: host name and user name
     _host = 'host%d' % _rng.randint(0, 9999)
     _user = 'user%d' % _rng.randint(0, 9999)
